@@ -82,6 +82,8 @@ type Kernel struct {
 
 	stallIvls    []ivl
 	Strict       bool
+	Free         bool          // free-running mode (race pass): no driver steps, no harness synchronisation on library paths
+	doneCh       chan struct{} // closed by Finish in free mode
 	Inspecting   atomic.Bool // set while the driver's inspector calls library accessors: no parks
 	spinReported bool
 	OnFatal      func(v *Violation) // called for spin: persists and exits
@@ -95,6 +97,7 @@ type Stats struct {
 	Probes  map[string]int // rare-condition probes
 	OpsKind map[string]int
 	LockSites map[string]int
+	Off       bool // free-running mode: no shared counters on library paths
 }
 
 func NewStats() *Stats {
@@ -102,14 +105,35 @@ func NewStats() *Stats {
 		Probes: map[string]int{}, OpsKind: map[string]int{}, LockSites: map[string]int{}}
 }
 
-func (s *Stats) Fault(k string) { s.mu.Lock(); s.Faults[k]++; s.mu.Unlock() }
-func (s *Stats) Probe(k string) { s.mu.Lock(); s.Probes[k]++; s.mu.Unlock() }
-func (s *Stats) Op(k string)    { s.mu.Lock(); s.OpsKind[k]++; s.mu.Unlock() }
+func (s *Stats) Fault(k string) {
+	if s.Off {
+		return
+	}
+	s.mu.Lock()
+	s.Faults[k]++
+	s.mu.Unlock()
+}
+func (s *Stats) Probe(k string) {
+	if s.Off {
+		return
+	}
+	s.mu.Lock()
+	s.Probes[k]++
+	s.mu.Unlock()
+}
+func (s *Stats) Op(k string) {
+	if s.Off {
+		return
+	}
+	s.mu.Lock()
+	s.OpsKind[k]++
+	s.mu.Unlock()
+}
 
 func NewKernel(p *Plan, logOn bool) *Kernel {
 	return &Kernel{
 		T0: time.Now(), Plan: p, wake: make(chan struct{}, 1), sleepTarget: -1,
-		visits: map[string]int{}, Stats: NewStats(), logOn: logOn, sigHash: 1469598103934665603,
+		visits: map[string]int{}, Stats: NewStats(), logOn: logOn, sigHash: 1469598103934665603, doneCh: make(chan struct{}),
 	}
 }
 
@@ -117,6 +141,9 @@ func (k *Kernel) Now() int64 { return int64(time.Since(k.T0)) }
 
 // Logf appends to the canonical log. Never draws randomness, never reads a real clock.
 func (k *Kernel) Logf(format string, args ...any) {
+	if k.Free {
+		return
+	}
 	s := fmt.Sprintf(format, args...)
 	now := k.Now()
 	k.mu.Lock()
@@ -160,6 +187,15 @@ func (k *Kernel) Signature() uint64 {
 }
 
 func (k *Kernel) At(at int64, key string, run func()) {
+	if k.Free {
+		// free-running: a timer is the only link between the scheduling goroutine and run
+		d := at - k.Now()
+		if d < 0 {
+			d = 0
+		}
+		time.AfterFunc(time.Duration(d), run)
+		return
+	}
 	k.mu.Lock()
 	k.seq++
 	heap.Push(&k.q, &Event{At: at, Key: key, Seq: k.seq, Run: run})
@@ -197,6 +233,9 @@ func matchStr(pat, s string) bool {
 // logger calls, socket calls, lock acquisitions and releases. The plan decides whether the
 // goroutine continues or parks for a virtual duration.
 func (k *Kernel) Yield(class, ident string) {
+	if k.Free {
+		return
+	}
 	if k.Inspecting.Load() {
 		return
 	}
@@ -337,7 +376,18 @@ func (k *Kernel) sleepTo(at int64) {
 
 // Drive runs the scheduler until the event queue is empty (finished) or a cap is hit.
 // idle is called at every point where nothing is due now and nobody is parked.
+// Finish ends a free-running run.
+func (k *Kernel) Finish() {
+	if k.Free {
+		close(k.doneCh)
+	}
+}
+
 func (k *Kernel) Drive(maxSteps int, idle func(now int64), stop func() bool) (reason string) {
+	if k.Free {
+		<-k.doneCh
+		return "stopped"
+	}
 	for {
 		synctest.Wait()
 		Heartbeat.Add(1)
